@@ -15,7 +15,7 @@ VERIF = os.path.dirname(os.path.dirname(os.path.abspath(__file__)))
 REPO = os.environ.get("GEOM_REPO", "/repo")
 
 def run_one(sid):
-    prop = sid.split("-")[0]
+    prop = [x for x in sid.split("-") if re.match(r"C\d\d$", x)][0]
     d = os.path.join(VERIF, "seeded", sid)
     tmp = tempfile.mkdtemp(prefix="seedchk.", dir="/tmp")
     try:
@@ -38,7 +38,7 @@ def main():
     j = 6
     if args[:1] == ["-j"]:
         j = int(args[1]); args = args[2:]
-    ids = args or sorted(x for x in os.listdir(os.path.join(VERIF, "seeded")) if re.match(r"C\d\d-\d+$", x))
+    ids = args or sorted(x for x in os.listdir(os.path.join(VERIF, "seeded")) if re.match(r"(R\d-)?C\d\d-\d+$", x))
     res = {}
     with ThreadPoolExecutor(j) as ex:
         for sid, r in ex.map(run_one, ids):
